@@ -615,6 +615,7 @@ func checkC15(c *ev.Ctx) {
 			c.Sample(map[string]any{"argv": inv.Argv, "members": kinds, "exit": res.Exit, "directory_after": snapNames(snap), "syscalls": len(res.Events)})
 		}
 	})
+	c15Stale(c, base)
 	// round trips for all presets and both formats, with interop
 	type rt struct {
 		f string
@@ -754,4 +755,111 @@ func checkC15(c *ev.Ctx) {
 	if !stdoutDevOK() {
 		c.Inconclusive("/dev/stdout disappeared during the run (harness safety rule violated)")
 	}
+}
+
+// c15Stale runs gxz in directories that already hold a file with the name gxz uses for its
+// temporary output (<target>.compress / .decompress: left by a killed run, or simply a file of
+// that name, possibly itself one of the files to process).  The statement does not say whether
+// such a run must succeed; whatever it does, it must not grant permission bits the input
+// lacked, must not destroy the content of any file it was not told to replace, and must report
+// failure exactly when the target was not produced.
+func c15Stale(c *ev.Ctx, base string) {
+	type sc struct {
+		dec, force, member bool
+		f                  string
+		inMode, staleMode  os.FileMode
+	}
+	var scs []sc
+	for _, dec := range []bool{false, true} {
+		for _, f := range []string{"xz", "lzma"} {
+			for _, force := range []bool{false, true} {
+				for _, member := range []bool{false, true} {
+					scs = append(scs, sc{dec, force, member, f, 0o600, 0o666}, sc{dec, force, member, f, 0o400, 0o644})
+				}
+			}
+		}
+	}
+	par(len(scs), func(i int) {
+		s := scs[i]
+		id := fmt.Sprintf("stale%d", i)
+		noteCase(id)
+		if !want(c, id) {
+			return
+		}
+		r := prng.New(c.Seed, 152, uint64(i))
+		dir := filepath.Join(base, id)
+		os.MkdirAll(dir, 0o755)
+		plain := gen.Data(r, "text", 4000)
+		in, inBytes, target, tmp := "notes", plain, "notes."+s.f, "notes."+s.f+".compress"
+		if s.dec {
+			in, target, tmp = "notes."+s.f, "notes", "notes.decompress"
+			inBytes = compressWith(s.f, plain)
+		}
+		stale := []byte("STALE CONTENT OF A FILE THAT HAS THE NAME OF THE TEMPORARY FILE " + strings.Repeat("x", 300))
+		os.WriteFile(filepath.Join(dir, in), inBytes, 0o600)
+		os.Chmod(filepath.Join(dir, in), s.inMode)
+		os.WriteFile(filepath.Join(dir, tmp), stale, 0o600)
+		os.Chmod(filepath.Join(dir, tmp), s.staleMode)
+		var argv []string
+		if s.dec {
+			argv = append(argv, "-d")
+		}
+		if s.force {
+			argv = append(argv, "-f")
+		}
+		argv = append(argv, "-F", s.f, in)
+		if s.member && !s.dec {
+			argv = append(argv, tmp)
+		}
+		res := runGxz(c, dir, argv, inject{}, false, nil)
+		snap := dirSnapshot(dir)
+		modes := map[string]os.FileMode{}
+		for nme := range snap {
+			if fi, err := os.Stat(filepath.Join(dir, nme)); err == nil {
+				modes[nme] = fi.Mode().Perm()
+			}
+		}
+		os.RemoveAll(dir)
+		if res.RunErr != "" || res.Exit < 0 {
+			c.Inconclusive(fmt.Sprintf("stale-temp scenario %s could not be run: %s", id, res.RunErr))
+			return
+		}
+		c.Eval(fmt.Sprintf("stale-temp d%v f%v member%v %s", s.dec, s.force, s.member, s.f), true)
+		c.Count("stale_tempfile_runs", 1)
+		det := map[string]any{"case_id": id, "argv": argv, "exit": res.Exit, "stderr": clipStr(res.Stderr, 300), "directory_after": snapNames(snap), "input_mode": fmt.Sprintf("%o", s.inMode), "stale_file": tmp, "stale_mode": fmt.Sprintf("%o", s.staleMode)}
+		viol := func(sig, what string) {
+			det["what"] = what
+			c.Violation(sig, det)
+		}
+		tb, tok := snap[target]
+		complete := tok && ((s.dec && bytes.Equal(tb, plain)) || (!s.dec && decodesTo(s.f, tb, plain)))
+		ib, iok := snap[in]
+		if tok && !complete {
+			viol("file-content", fmt.Sprintf("target %q exists (%d bytes) but is not the complete result", target, len(tb)))
+		}
+		if !complete && (!iok || !bytes.Equal(ib, inBytes)) {
+			viol("file-content", fmt.Sprintf("no complete target and the input %q is present=%v intact=%v", in, iok, iok && bytes.Equal(ib, inBytes)))
+		}
+		if tok {
+			if md := modes[target]; md&^s.inMode != 0 {
+				viol("permission-bits-granted", fmt.Sprintf("%q has mode %o, the input had %o (a file named %q with mode %o existed before the run)", target, md, s.inMode, tmp, s.staleMode))
+			}
+		}
+		if s.member && !s.dec {
+			// the file with the temporary name was itself to be compressed: independent of the other
+			sb, sok := snap[tmp]
+			st, stok := snap[tmp+"."+s.f]
+			if !(sok && bytes.Equal(sb, stale)) && !(stok && decodesTo(s.f, st, stale)) {
+				viol("independent-files", fmt.Sprintf("the second file %q is neither intact nor completely compressed (present=%v, %d bytes; its target present=%v)", tmp, sok, len(sb), stok))
+			}
+			if (res.Exit == 0) != (complete && stok && !sok) {
+				// exit 0 exactly when both files were processed
+				if res.Exit == 0 {
+					viol("exit-status", fmt.Sprintf("exit status 0 but not both files were processed (target complete=%v, second target present=%v)", complete, stok))
+				}
+			}
+		} else if (res.Exit == 0) != complete {
+			viol("exit-status", fmt.Sprintf("exit status %d, target complete = %v", res.Exit, complete))
+		}
+	})
 }
